@@ -40,20 +40,21 @@ def MuxExpressible (n : MuxNode) : Prop :=
   1 ≤ n.selW ∧ n.selW ≤ 62 ∧ n.groupCount = calcValue n.selW ∧ 0 < n.groupSize ∧
   (∀ k ∈ List.range n.groupCount.toNat, WF n.groupSize (childSlots (groupOf n.children ((k : Nat) : Int)))) ∧
   (∀ c ∈ n.children, (∀ g ∈ c.gids, 0 ≤ g ∧ g < n.groupCount) ∧ c.gids.Pairwise (· < ·) ∧
-      (c.gids.length : Int) < n.groupCount ∧ 0 < c.size) ∧
+      (c.gids.length : Int) < n.groupCount ∧ 0 < c.size ∧ c.isMux = false) ∧
   (∃ c ∈ n.children, c.rel + c.size = n.groupSize)
 
 instance (n : MuxNode) : Decidable (MuxExpressible n) := by unfold MuxExpressible; exact inferInstance
 
 /-- The DBC-expressible fragment: a message of at most 8 bytes (what a CAN 2.0 bus of an
     import takes) whose top-level placement is a well-formed layout, with pairwise different
-    names, with NO multiplexer or EXACTLY ONE, non-empty and not nested (D54, D76 are outside),
+    names, with NO multiplexer or EXACTLY ONE, non-empty and without nested multiplexers (no child
+    `isMux`, `nested = []`; D54, D76 are outside),
     of an expressible shape; an empty message is little endian (a file states the byte order
     per signal only). -/
 def Expressible (t : ITree) : Prop :=
   0 ≤ t.sizeByte ∧ t.sizeByte ≤ 8 ∧ WF (8 * t.sizeByte) (topSlots t.top) ∧ (regNames t.top).Nodup ∧
   (muxesOf t.top).length ≤ 1 ∧ (∀ n ∈ muxesOf t.top, MuxExpressible n) ∧
-  (t.top = [] → t.bigEndian = false)
+  (t.top = [] → t.bigEndian = false) ∧ t.nested = []
 
 instance (t : ITree) : Decidable (Expressible t) := by unfold Expressible; exact inferInstance
 
